@@ -21,7 +21,7 @@ namespace Memory = BitSerializer::Memory;
 
 // ---------------------------------------------------------------- reference side
 struct R8 {
-	typedef unsigned char unit; typedef char cchar; static constexpr size_t marklen = 3;
+	typedef unsigned char unit; typedef char cchar; static constexpr size_t marklen = 3; static constexpr size_t maxper = 4;
 	static size_t wf_prefix(const unit* p, size_t n, uint32_t* cps, size_t maxc, size_t* ncp) { return ref::utf8_wf_prefix(p, n, cps, maxc, ncp); }
 	static size_t enc(uint32_t c, unit* o) { return ref::enc_utf8(c, o); }
 	static bool valid(const unit* p, size_t n) { return ref::utf8_valid(p, n); }
@@ -39,7 +39,7 @@ struct R8 {
 	}
 };
 struct R16 {
-	typedef uint16_t unit; typedef char16_t cchar; static constexpr size_t marklen = 1;
+	typedef uint16_t unit; typedef char16_t cchar; static constexpr size_t marklen = 1; static constexpr size_t maxper = 2;
 	static size_t wf_prefix(const unit* p, size_t n, uint32_t* cps, size_t maxc, size_t* ncp) { return ref::utf16_wf_prefix(p, n, cps, maxc, ncp); }
 	static size_t enc(uint32_t c, unit* o) { return ref::enc_utf16(c, o); }
 	static bool valid(const unit* p, size_t n) { return ref::utf16_valid(p, n); }
@@ -51,7 +51,7 @@ struct R16 {
 	}
 };
 struct R32 {
-	typedef uint32_t unit; typedef char32_t cchar; static constexpr size_t marklen = 1;
+	typedef uint32_t unit; typedef char32_t cchar; static constexpr size_t marklen = 1; static constexpr size_t maxper = 1;
 	static size_t wf_prefix(const unit* p, size_t n, uint32_t* cps, size_t maxc, size_t* ncp) { return ref::utf32_wf_prefix(p, n, cps, maxc, ncp); }
 	static size_t enc(uint32_t c, unit* o) { o[0] = c; return 1; }
 	static bool valid(const unit* p, size_t n) { return ref::utf32_valid(p, n); }
@@ -80,7 +80,7 @@ template <class U> static inline U bswap(U v) { if constexpr (sizeof(U) == 2) re
 
 template <class S, class D, Order O, size_t N> struct H {
 	typedef typename S::unit SU; typedef typename D::unit DU;
-	static constexpr size_t MAXOUT = 4 * N + 4;
+	static constexpr size_t MAXOUT = D::maxper * N;   // no source unit can produce more target units than this
 	// abstract units (host order) and the memory image handed to the library
 	static size_t load(const unsigned char* in, SU* abs, SU* mem) {
 		size_t n = in[0] <= N ? in[0] : N;   // total: lengths beyond the bound are clamped (the assumption restricts the solver to n <= N)
@@ -95,7 +95,7 @@ template <class S, class D, Order O, size_t N> struct H {
 	}
 	static int prop_throw(const unsigned char* in, unsigned char* out) {
 		SU abs[N], mem[N]; size_t n = load(in, abs, mem);
-		std::basic_string<typename D::cchar> s; s.reserve(MAXOUT + 12);
+		std::basic_string<typename D::cchar> s; s.reserve(MAXOUT + 8);
 		verif_symbolic_phase();
 		size_t it = 0, cnt = 0;
 		UtfEncodingErrorCode ec = decode<S, D, O>(mem, n, s, UtfEncodingErrorPolicy::ThrowError, nullptr, &it, &cnt);
@@ -108,7 +108,7 @@ template <class S, class D, Order O, size_t N> struct H {
 	}
 	static int prop_skip(const unsigned char* in, unsigned char* out) {
 		SU abs[N], mem[N]; size_t n = load(in, abs, mem);
-		std::basic_string<typename D::cchar> a, b; a.reserve(MAXOUT * 3 + 12); b.reserve(MAXOUT + 12);
+		std::basic_string<typename D::cchar> a, b; a.reserve(MAXOUT + 8); b.reserve(MAXOUT + 8);
 		static const typename D::cchar empty[1] = { 0 };
 		verif_symbolic_phase();
 		size_t itA = 0, cntA = 0, itB = 0, cntB = 0;
@@ -124,8 +124,8 @@ template <class S, class D, Order O, size_t N> struct H {
 		else return 0;
 		if (ecB != ecA || itB != itA) return 0;
 		// S2
-		DU buf[MAXOUT * 3 + 12];
-		if (a.size() > MAXOUT * 3 + 12) return 0;
+		DU buf[MAXOUT + 8];
+		if (a.size() > MAXOUT + 8) return 0;
 		for (size_t i = 0; i < a.size(); i++) buf[i] = (DU)a[i];
 		if (!D::valid(buf, a.size())) return 0;
 		// S3
@@ -174,28 +174,28 @@ DEF(h12a_8to32_T, R8, R32, Native, 5)
 DEF(h12b_16to8_T, R16, R8, Native, 4)
 DEF(h12c_32to16_T, R32, R16, Native, 3)
 
-//@ OBL {"name": "h12a_8to16_throw", "prop": "vp_h12a_8to16_throw", "assume": "va_h12a_8to16", "in": 5, "out": 8, "unwind": 80, "bounds": "every UTF-8 byte string of length <= 4", "desc": "Utf8::Decode -> UTF-16, ThrowError (T1)", "unwind_fn": {"BitSerializer": 6, "ref": 6}}
-//@ OBL {"name": "h12a_8to16_skip", "prop": "vp_h12a_8to16_skip", "assume": "va_h12a_8to16", "in": 5, "out": 8, "unwind": 80, "bounds": "every UTF-8 byte string of length <= 4", "desc": "Utf8::Decode -> UTF-16, Skip default+empty mark (S1-S6)", "unwind_fn": {"BitSerializer": 6, "ref": 6}}
-//@ OBL {"name": "h12a_8to32_throw", "prop": "vp_h12a_8to32_throw", "assume": "va_h12a_8to32", "in": 5, "out": 8, "unwind": 80, "bounds": "every UTF-8 byte string of length <= 4", "desc": "Utf8::Decode -> UTF-32, ThrowError (T1)", "unwind_fn": {"BitSerializer": 6, "ref": 6}}
-//@ OBL {"name": "h12a_8to32_skip", "prop": "vp_h12a_8to32_skip", "assume": "va_h12a_8to32", "in": 5, "out": 8, "unwind": 80, "bounds": "every UTF-8 byte string of length <= 4", "desc": "Utf8::Decode -> UTF-32, Skip (S1-S6)", "unwind_fn": {"BitSerializer": 6, "ref": 6}}
-//@ OBL {"name": "h12b_16to8_throw", "prop": "vp_h12b_16to8_throw", "assume": "va_h12b_16to8", "in": 7, "out": 8, "unwind": 80, "bounds": "every sequence of <= 3 UTF-16 units", "desc": "Utf16::Decode -> UTF-8 (Utf8::Encode), ThrowError (T1)", "unwind_fn": {"BitSerializer": 5, "ref": 5}}
-//@ OBL {"name": "h12b_16to8_skip", "prop": "vp_h12b_16to8_skip", "assume": "va_h12b_16to8", "in": 7, "out": 8, "unwind": 80, "bounds": "every sequence of <= 3 UTF-16 units", "desc": "Utf16::Decode -> UTF-8, Skip (S1-S6)", "unwind_fn": {"BitSerializer": 5, "ref": 5}}
-//@ OBL {"name": "h12b_16to32_throw", "prop": "vp_h12b_16to32_throw", "assume": "va_h12b_16to32", "in": 7, "out": 8, "unwind": 80, "bounds": "every sequence of <= 3 UTF-16 units", "desc": "Utf16::Decode -> UTF-32, ThrowError (T1)", "unwind_fn": {"BitSerializer": 5, "ref": 5}}
-//@ OBL {"name": "h12b_16to32_skip", "prop": "vp_h12b_16to32_skip", "assume": "va_h12b_16to32", "in": 7, "out": 8, "unwind": 80, "bounds": "every sequence of <= 3 UTF-16 units", "desc": "Utf16::Decode -> UTF-32, Skip (S1-S6)", "unwind_fn": {"BitSerializer": 5, "ref": 5}}
-//@ OBL {"name": "h12b_16le_to8_throw", "prop": "vp_h12b_16le_to8_throw", "assume": "va_h12b_16le_to8", "in": 7, "out": 8, "unwind": 80, "bounds": "every sequence of <= 3 UTF-16LE units", "desc": "Utf16Le::Decode (iterator adapter) -> UTF-8, ThrowError", "unwind_fn": {"BitSerializer": 5, "ref": 5}}
-//@ OBL {"name": "h12b_16le_to8_skip", "prop": "vp_h12b_16le_to8_skip", "assume": "va_h12b_16le_to8", "in": 7, "out": 8, "unwind": 80, "bounds": "every sequence of <= 3 UTF-16LE units", "desc": "Utf16Le::Decode -> UTF-8, Skip", "unwind_fn": {"BitSerializer": 5, "ref": 5}}
-//@ OBL {"name": "h12b_16be_to32_throw", "prop": "vp_h12b_16be_to32_throw", "assume": "va_h12b_16be_to32", "in": 7, "out": 8, "unwind": 80, "bounds": "every sequence of <= 3 UTF-16BE units", "desc": "Utf16Be::Decode (byte-swapping iterator) -> UTF-32, ThrowError", "unwind_fn": {"BitSerializer": 5, "ref": 5}}
-//@ OBL {"name": "h12b_16be_to32_skip", "prop": "vp_h12b_16be_to32_skip", "assume": "va_h12b_16be_to32", "in": 7, "out": 8, "unwind": 80, "bounds": "every sequence of <= 3 UTF-16BE units", "desc": "Utf16Be::Decode -> UTF-32, Skip", "unwind_fn": {"BitSerializer": 5, "ref": 5}}
-//@ OBL {"name": "h12c_32to8_throw", "prop": "vp_h12c_32to8_throw", "assume": "va_h12c_32to8", "in": 9, "out": 8, "unwind": 80, "bounds": "every sequence of <= 2 UTF-32 units (all 2^32 values each)", "desc": "Utf32::Decode -> UTF-8, ThrowError", "unwind_fn": {"BitSerializer": 4, "ref": 4}}
-//@ OBL {"name": "h12c_32to8_skip", "prop": "vp_h12c_32to8_skip", "assume": "va_h12c_32to8", "in": 9, "out": 8, "unwind": 80, "bounds": "every sequence of <= 2 UTF-32 units", "desc": "Utf32::Decode -> UTF-8, Skip", "unwind_fn": {"BitSerializer": 4, "ref": 4}}
-//@ OBL {"name": "h12c_32to16_throw", "prop": "vp_h12c_32to16_throw", "assume": "va_h12c_32to16", "in": 9, "out": 8, "unwind": 80, "bounds": "every sequence of <= 2 UTF-32 units", "desc": "Utf32::Decode -> UTF-16 (Utf16::Encode), ThrowError", "unwind_fn": {"BitSerializer": 4, "ref": 4}}
-//@ OBL {"name": "h12c_32to16_skip", "prop": "vp_h12c_32to16_skip", "assume": "va_h12c_32to16", "in": 9, "out": 8, "unwind": 80, "bounds": "every sequence of <= 2 UTF-32 units", "desc": "Utf32::Decode -> UTF-16, Skip", "unwind_fn": {"BitSerializer": 4, "ref": 4}}
-//@ OBL {"name": "h12c_32be_to8_throw", "prop": "vp_h12c_32be_to8_throw", "assume": "va_h12c_32be_to8", "in": 9, "out": 8, "unwind": 80, "bounds": "every sequence of <= 2 UTF-32BE units", "desc": "Utf32Be::Decode -> UTF-8, ThrowError", "unwind_fn": {"BitSerializer": 4, "ref": 4}}
-//@ OBL {"name": "h12c_32le_to16_skip", "prop": "vp_h12c_32le_to16_skip", "assume": "va_h12c_32le_to16", "in": 9, "out": 8, "unwind": 80, "bounds": "every sequence of <= 2 UTF-32LE units", "desc": "Utf32Le::Decode -> UTF-16, Skip", "unwind_fn": {"BitSerializer": 4, "ref": 4}}
-//@ OBL {"name": "h12a_8to16_T_throw", "tier": "thorough", "prop": "vp_h12a_8to16_T_throw", "assume": "va_h12a_8to16_T", "in": 6, "out": 8, "unwind": 80, "cap_s": 1800, "bounds": "every UTF-8 byte string of length <= 5", "desc": "Utf8::Decode -> UTF-16, ThrowError", "unwind_fn": {"BitSerializer": 7, "ref": 7}}
-//@ OBL {"name": "h12a_8to32_T_skip", "tier": "thorough", "prop": "vp_h12a_8to32_T_skip", "assume": "va_h12a_8to32_T", "in": 6, "out": 8, "unwind": 80, "cap_s": 1800, "bounds": "every UTF-8 byte string of length <= 5", "desc": "Utf8::Decode -> UTF-32, Skip", "unwind_fn": {"BitSerializer": 7, "ref": 7}}
-//@ OBL {"name": "h12b_16to8_T_skip", "tier": "thorough", "prop": "vp_h12b_16to8_T_skip", "assume": "va_h12b_16to8_T", "in": 9, "out": 8, "unwind": 80, "cap_s": 1800, "bounds": "every sequence of <= 4 UTF-16 units", "desc": "Utf16::Decode -> UTF-8, Skip", "unwind_fn": {"BitSerializer": 6, "ref": 6}}
-//@ OBL {"name": "h12c_32to16_T_skip", "tier": "thorough", "prop": "vp_h12c_32to16_T_skip", "assume": "va_h12c_32to16_T", "in": 13, "out": 8, "unwind": 80, "cap_s": 1800, "bounds": "every sequence of <= 3 UTF-32 units", "desc": "Utf32::Decode -> UTF-16, Skip", "unwind_fn": {"BitSerializer": 5, "ref": 5}}
+//@ OBL {"name": "h12a_8to16_throw", "prop": "vp_h12a_8to16_throw", "assume": "va_h12a_8to16", "in": 5, "out": 8, "unwind": 18, "bounds": "every UTF-8 byte string of length <= 4", "desc": "Utf8::Decode -> UTF-16, ThrowError (T1)", "unwind_fn": {"BitSerializer": 6, "ref": 6}, "family": "h12a"}
+//@ OBL {"name": "h12a_8to16_skip", "prop": "vp_h12a_8to16_skip", "assume": "va_h12a_8to16", "in": 5, "out": 8, "unwind": 18, "bounds": "every UTF-8 byte string of length <= 4", "desc": "Utf8::Decode -> UTF-16, Skip default+empty mark (S1-S6)", "unwind_fn": {"BitSerializer": 6, "ref": 6}, "family": "h12a"}
+//@ OBL {"name": "h12a_8to32_throw", "prop": "vp_h12a_8to32_throw", "assume": "va_h12a_8to32", "in": 5, "out": 8, "unwind": 14, "bounds": "every UTF-8 byte string of length <= 4", "desc": "Utf8::Decode -> UTF-32, ThrowError (T1)", "unwind_fn": {"BitSerializer": 6, "ref": 6}, "family": "h12a"}
+//@ OBL {"name": "h12a_8to32_skip", "prop": "vp_h12a_8to32_skip", "assume": "va_h12a_8to32", "in": 5, "out": 8, "unwind": 14, "bounds": "every UTF-8 byte string of length <= 4", "desc": "Utf8::Decode -> UTF-32, Skip (S1-S6)", "unwind_fn": {"BitSerializer": 6, "ref": 6}, "family": "h12a"}
+//@ OBL {"name": "h12b_16to8_throw", "prop": "vp_h12b_16to8_throw", "assume": "va_h12b_16to8", "in": 7, "out": 8, "unwind": 22, "bounds": "every sequence of <= 3 UTF-16 units", "desc": "Utf16::Decode -> UTF-8 (Utf8::Encode), ThrowError (T1)", "unwind_fn": {"BitSerializer": 5, "ref": 5}, "family": "h12b"}
+//@ OBL {"name": "h12b_16to8_skip", "prop": "vp_h12b_16to8_skip", "assume": "va_h12b_16to8", "in": 7, "out": 8, "unwind": 22, "bounds": "every sequence of <= 3 UTF-16 units", "desc": "Utf16::Decode -> UTF-8, Skip (S1-S6)", "unwind_fn": {"BitSerializer": 5, "ref": 5}, "family": "h12b"}
+//@ OBL {"name": "h12b_16to32_throw", "prop": "vp_h12b_16to32_throw", "assume": "va_h12b_16to32", "in": 7, "out": 8, "unwind": 13, "bounds": "every sequence of <= 3 UTF-16 units", "desc": "Utf16::Decode -> UTF-32, ThrowError (T1)", "unwind_fn": {"BitSerializer": 5, "ref": 5}, "family": "h12b"}
+//@ OBL {"name": "h12b_16to32_skip", "prop": "vp_h12b_16to32_skip", "assume": "va_h12b_16to32", "in": 7, "out": 8, "unwind": 13, "bounds": "every sequence of <= 3 UTF-16 units", "desc": "Utf16::Decode -> UTF-32, Skip (S1-S6)", "unwind_fn": {"BitSerializer": 5, "ref": 5}, "family": "h12b"}
+//@ OBL {"name": "h12b_16le_to8_throw", "prop": "vp_h12b_16le_to8_throw", "assume": "va_h12b_16le_to8", "in": 7, "out": 8, "unwind": 22, "bounds": "every sequence of <= 3 UTF-16LE units", "desc": "Utf16Le::Decode (iterator adapter) -> UTF-8, ThrowError", "unwind_fn": {"BitSerializer": 5, "ref": 5}, "family": "h12b"}
+//@ OBL {"name": "h12b_16le_to8_skip", "prop": "vp_h12b_16le_to8_skip", "assume": "va_h12b_16le_to8", "in": 7, "out": 8, "unwind": 22, "bounds": "every sequence of <= 3 UTF-16LE units", "desc": "Utf16Le::Decode -> UTF-8, Skip", "unwind_fn": {"BitSerializer": 5, "ref": 5}, "family": "h12b"}
+//@ OBL {"name": "h12b_16be_to32_throw", "prop": "vp_h12b_16be_to32_throw", "assume": "va_h12b_16be_to32", "in": 7, "out": 8, "unwind": 13, "bounds": "every sequence of <= 3 UTF-16BE units", "desc": "Utf16Be::Decode (byte-swapping iterator) -> UTF-32, ThrowError", "unwind_fn": {"BitSerializer": 5, "ref": 5}, "family": "h12b"}
+//@ OBL {"name": "h12b_16be_to32_skip", "prop": "vp_h12b_16be_to32_skip", "assume": "va_h12b_16be_to32", "in": 7, "out": 8, "unwind": 13, "bounds": "every sequence of <= 3 UTF-16BE units", "desc": "Utf16Be::Decode -> UTF-32, Skip", "unwind_fn": {"BitSerializer": 5, "ref": 5}, "family": "h12b"}
+//@ OBL {"name": "h12c_32to8_throw", "prop": "vp_h12c_32to8_throw", "assume": "va_h12c_32to8", "in": 9, "out": 8, "unwind": 18, "bounds": "every sequence of <= 2 UTF-32 units (all 2^32 values each)", "desc": "Utf32::Decode -> UTF-8, ThrowError", "unwind_fn": {"BitSerializer": 4, "ref": 4}, "family": "h12c"}
+//@ OBL {"name": "h12c_32to8_skip", "prop": "vp_h12c_32to8_skip", "assume": "va_h12c_32to8", "in": 9, "out": 8, "unwind": 18, "bounds": "every sequence of <= 2 UTF-32 units", "desc": "Utf32::Decode -> UTF-8, Skip", "unwind_fn": {"BitSerializer": 4, "ref": 4}, "family": "h12c"}
+//@ OBL {"name": "h12c_32to16_throw", "prop": "vp_h12c_32to16_throw", "assume": "va_h12c_32to16", "in": 9, "out": 8, "unwind": 14, "bounds": "every sequence of <= 2 UTF-32 units", "desc": "Utf32::Decode -> UTF-16 (Utf16::Encode), ThrowError", "unwind_fn": {"BitSerializer": 4, "ref": 4}, "family": "h12c"}
+//@ OBL {"name": "h12c_32to16_skip", "prop": "vp_h12c_32to16_skip", "assume": "va_h12c_32to16", "in": 9, "out": 8, "unwind": 14, "bounds": "every sequence of <= 2 UTF-32 units", "desc": "Utf32::Decode -> UTF-16, Skip", "unwind_fn": {"BitSerializer": 4, "ref": 4}, "family": "h12c"}
+//@ OBL {"name": "h12c_32be_to8_throw", "prop": "vp_h12c_32be_to8_throw", "assume": "va_h12c_32be_to8", "in": 9, "out": 8, "unwind": 18, "bounds": "every sequence of <= 2 UTF-32BE units", "desc": "Utf32Be::Decode -> UTF-8, ThrowError", "unwind_fn": {"BitSerializer": 4, "ref": 4}, "family": "h12c"}
+//@ OBL {"name": "h12c_32le_to16_skip", "prop": "vp_h12c_32le_to16_skip", "assume": "va_h12c_32le_to16", "in": 9, "out": 8, "unwind": 14, "bounds": "every sequence of <= 2 UTF-32LE units", "desc": "Utf32Le::Decode -> UTF-16, Skip", "unwind_fn": {"BitSerializer": 4, "ref": 4}, "family": "h12c"}
+//@ OBL {"name": "h12a_8to16_T_throw", "tier": "thorough", "prop": "vp_h12a_8to16_T_throw", "assume": "va_h12a_8to16_T", "in": 6, "out": 8, "unwind": 20, "cap_s": 1800, "bounds": "every UTF-8 byte string of length <= 5", "desc": "Utf8::Decode -> UTF-16, ThrowError", "unwind_fn": {"BitSerializer": 7, "ref": 7}, "family": "h12a"}
+//@ OBL {"name": "h12a_8to32_T_skip", "tier": "thorough", "prop": "vp_h12a_8to32_T_skip", "assume": "va_h12a_8to32_T", "in": 6, "out": 8, "unwind": 15, "cap_s": 1800, "bounds": "every UTF-8 byte string of length <= 5", "desc": "Utf8::Decode -> UTF-32, Skip", "unwind_fn": {"BitSerializer": 7, "ref": 7}, "family": "h12a"}
+//@ OBL {"name": "h12b_16to8_T_skip", "tier": "thorough", "prop": "vp_h12b_16to8_T_skip", "assume": "va_h12b_16to8_T", "in": 9, "out": 8, "unwind": 26, "cap_s": 1800, "bounds": "every sequence of <= 4 UTF-16 units", "desc": "Utf16::Decode -> UTF-8, Skip", "unwind_fn": {"BitSerializer": 6, "ref": 6}, "family": "h12b"}
+//@ OBL {"name": "h12c_32to16_T_skip", "tier": "thorough", "prop": "vp_h12c_32to16_T_skip", "assume": "va_h12c_32to16_T", "in": 13, "out": 8, "unwind": 16, "cap_s": 1800, "bounds": "every sequence of <= 3 UTF-32 units", "desc": "Utf32::Decode -> UTF-16, Skip", "unwind_fn": {"BitSerializer": 5, "ref": 5}, "family": "h12c"}
 // Vectors from the repo's own tests (utf8_encoding_tests.cpp etc.) and Unicode Table 3-7 boundary samples, for translation validation
 //@ VEC * 0441e282ac00
 //@ VEC * 04f09f9880
